@@ -191,6 +191,65 @@ def _push_status(ctx, R, roles, T):
                 "a non-OKAY status does not (only) raise PushFailedError carrying the record's payload", f.loc(tn.ast))
 
 
+def _staged_keep(ctx, fl, g, df, T, info, n, rt):
+    """The early payload is collected in a local accumulator (`acc += data`, `acc.extend(data)`, `acc.append(data)` with a
+    `b''.join(acc)` later) that starts empty, is touched nowhere else, and is appended to the receive buffer:
+    -> (collecting node, accumulator name, [nodes appending it to the receive buffer]) or None."""
+    cands = {}
+    for m in g.live_nodes():
+        a = m.ast
+        if m.kind != "stmt":
+            continue
+        if isinstance(a, ast.AugAssign) and isinstance(a.op, ast.Add) and isinstance(a.target, ast.Name) and T.term(fl, m, a.value) == ("proj", rt, 1):
+            cands.setdefault(a.target.id, []).append((m, "bytes"))
+        elif isinstance(a, ast.Expr) and isinstance(a.value, ast.Call) and isinstance(a.value.func, ast.Attribute) and isinstance(a.value.func.value, ast.Name) \
+                and a.value.func.attr in ("append", "extend") and len(a.value.args) == 1 and not a.value.keywords and T.term(fl, m, a.value.args[0]) == ("proj", rt, 1):
+            cands.setdefault(a.value.func.value.id, []).append((m, "list" if a.value.func.attr == "append" else "bytes"))
+    for acc, lst in sorted(cands.items()):
+        if len(lst) != 1 or acc in fl.params:
+            continue
+        m, kind = lst[0]
+        # every other definition of the accumulator is its empty initialisation, outside any cycle
+        ok = True
+        ninit = 0
+        for x in g.live_nodes():
+            for d in df.node_defs.get(x, []):
+                if d.var != acc or x is m:
+                    continue
+                v = d.value if d.kind == "assign" and not d.path else None
+                empty = v is not None and ((isinstance(v, ast.Call) and isinstance(v.func, ast.Name) and v.func.id in ("bytearray", "bytes", "list") and not v.args and not v.keywords and kind == ("list" if v.func.id == "list" else "bytes"))
+                                           or (isinstance(v, ast.Constant) and v.value == b"" and kind == "bytes") or (isinstance(v, ast.List) and not v.elts and kind == "list"))
+                if not empty or g.in_cycle(x):
+                    ok = False
+                ninit += 1
+        if not ok or ninit != 1:
+            continue
+        flushes = []
+        uses_ok = True
+        for x in g.live_nodes():
+            if x is m:
+                continue
+            a = x.ast
+            mentions = [y for e in x.exprs() for y in ast.walk(e) if isinstance(y, ast.Name) and y.id == acc and isinstance(y.ctx, ast.Load)]
+            if not mentions:
+                continue
+            if x.kind == "test" and isinstance(unawait(x.ast.test), ast.Name):
+                continue                      # `if acc:`
+            if x.kind == "stmt" and isinstance(a, ast.AugAssign) and isinstance(a.op, ast.Add) and varkey(a.target) == "%s.recv_buffer" % info:
+                v = a.value
+                if kind == "bytes" and isinstance(v, ast.Name) and v.id == acc:
+                    flushes.append(x)
+                    continue
+                if kind == "list" and isinstance(v, ast.Call) and isinstance(v.func, ast.Attribute) and v.func.attr == "join" and isinstance(v.func.value, ast.Constant) and v.func.value.value == b"" \
+                        and len(v.args) == 1 and isinstance(v.args[0], ast.Name) and v.args[0].id == acc:
+                    flushes.append(x)
+                    continue
+            uses_ok = False
+        if uses_ok and flushes:
+            return m, acc, flushes
+    return None
+
+
 def _nd_own(ctx, R, roles, T):
     """While awaiting the OKAY for its own WRTE the host must not lose a WRTE of the same stream."""
     fl = roles.dev["_filesync_flush"]
@@ -218,7 +277,13 @@ def _nd_own(ctx, R, roles, T):
             a = m.ast
             if m.kind == "stmt" and isinstance(a, ast.AugAssign) and isinstance(a.op, ast.Add) and varkey(a.target) == "%s.recv_buffer" % info and T.term(fl, m, a.value) == ("proj", rt, 1):
                 adds.append(m)
-        R.check(len(adds) == 1, "ND-own", sub + "|kept", "an early WRTE payload is appended to the sync receive buffer", "the payload of a WRTE received while awaiting OKAY is not appended (exactly once) to the receive buffer", fl.loc(n.ast))
+        staged = None
+        if not adds:
+            staged = _staged_keep(ctx, fl, g, df, T, info, n, rt)
+            if staged is not None:
+                adds = [staged[0]]
+        R.check(len(adds) == 1, "ND-own", sub + "|kept", "an early WRTE payload is appended to the sync receive buffer" + (" (collected in `%s`, which is appended when the OKAY arrives)" % staged[1] if staged else ""),
+                "the payload of a WRTE received while awaiting OKAY is not appended (exactly once) to the receive buffer", fl.loc(n.ast))
         if len(adds) != 1:
             continue
         an = adds[0]
@@ -242,4 +307,16 @@ def _nd_own(ctx, R, roles, T):
         R.check(n not in r and g.exit not in r, "ND-own", sub + "|kept-every-path", "every early WRTE payload is kept before waiting on", "an early WRTE payload can be dropped (a path from the WRTE branch avoids the append)", fl.loc(an.ast))
         R.check(an not in g.reach_from_edge(tn, ok_lab, avoid=[n], exc=False), "ND-own", sub + "|okay-not-kept", "an OKAY's payload is not put into the sync stream", "the payload of the OKAY packet is appended to the sync receive buffer", fl.loc(an.ast))
         R.check(an not in g.reach([an], avoid=[n], exc=False), "ND-own", sub + "|kept-once", "kept once", "an early WRTE payload can be appended twice", fl.loc(an.ast))
+        if staged is not None:
+            _acc, accname, flushes = staged
+            accfalse = ("truthy", key(ast.Name(id=accname, ctx=ast.Load())))
+
+            def not_known_empty(s_, d_, l_):
+                return not any(fa[0] == accfalse and fa[1] is False for fa in df.edge_facts(s_, l_))
+            starts_ok = [d for d, l in g.succ[tn] if l == ok_lab]
+            r2 = g.reach(starts_ok, avoid=flushes, exc=False, edge_filter=not_known_empty, include_start=True)
+            R.check(g.exit not in r2 and n not in r2, "ND-own", sub + "|staged-flushed", "what was collected in `%s` is appended to the receive buffer before the flush returns (skipped only when it is empty)" % accname,
+                    "the early payloads collected in `%s` can be dropped: a path from the OKAY to the return avoids appending them to the receive buffer" % accname, fl.loc(an.ast))
+            R.check(not any(g.in_cycle(x) for x in flushes) and not any(y in g.reach([x], exc=False) for x in flushes for y in flushes), "ND-own", sub + "|staged-once",
+                    "collected payloads are appended once", "the collected early payloads can be appended twice", fl.loc(an.ast))
     # the other awaiting sites, for the record (the rule is deliberately not applied there, see DESIGN section 5 C10)
